@@ -216,7 +216,7 @@ namespace avel {
         typename std::enable_if<N < mask64x8u::width, int>::type dummy_variable = 0;
 
         auto mask = std::uint64_t(b) << N;
-        return mask64x8u{__mmask64(decay(m) & ~mask) | mask};
+        return mask64x8u{__mmask64(decay(m) & ~(std::uint64_t(1) << N)) | mask};
     }
 
 
